@@ -35,6 +35,7 @@ mutual
         if hasExtractable ds then
           match ds, body with
           | [.msg _], .start _ a :: rest => attrsCode a ++ rest.dropLast.flatMap evCode
+          | [.msg _], first :: rest => (first :: rest).flatMap evCode      -- element form
           | _, _ => []
         else codeList cfg body
     | _ => []
@@ -108,13 +109,6 @@ theorem hasCode_flatMap (cfg : Cfg) (st : Bool) : ∀ (evs : List TEvent),
       simp only [List.flatMap_cons]
       exact HasCode.append (hasCode_evMessages cfg st e) (hasCode_flatMap cfg st es)
 
-theorem exSub_msg (cfg : Cfg) (ps : List Str) (body : List TEvent) (st : Bool) (cs xs : List Str) :
-    exSub cfg st cs xs (.sub [.msg ps] body) = msgExtract cfg ps st cs xs body := by
-  simp only [exSub, List.length_cons, List.length_nil, subLoop1, List.getElem?_cons_zero, Dir.isI18n, ↓reduceIte,
-    bind, Except.bind, pure, Except.pure]
-  cases hm : msgExtract cfg ps st cs xs body <;>
-    simp [subLoop1, subLoop2, bind, Except.bind, pure, Except.pure, hm]
-
 /-- the plain message directive: the calls in its content are reported -/
 theorem msg_sub_code (cfg : Cfg) (ps : List Str) (body : List TEvent) (hg : goodMsgBody ps body = true)
     (st : Bool) (cs xs : List Str) (ms : List Message)
@@ -159,8 +153,21 @@ mutual
         rcases h with h | h
         · match dirs, h with
           | [.msg ps], h =>
-            obtain ⟨ms, hms, _, _⟩ := msg_sub cfg ps body h st cs xs
-            exact ⟨ms, hms, msg_sub_code cfg ps body h st cs xs ms hms⟩
+            simp only [Bool.or_eq_true] at h
+            rcases h with h | h
+            · obtain ⟨ms, hms, _, _⟩ := msg_sub cfg ps body h st cs xs
+              exact ⟨ms, hms, msg_sub_code cfg ps body h st cs xs ms hms⟩
+            · cases body with
+              | nil => simp [goodElemBody] at h
+              | cons first rest =>
+                obtain ⟨B, m, _, _, _, hex, _⟩ := msgExtract_elem cfg ps first rest h st cs xs
+                refine ⟨_, by rw [exSub_msg]; exact hex, ?_⟩
+                have hf : first.isStart = false := by
+                  simp only [goodElemBody, Bool.and_eq_true, Bool.not_eq_true'] at h; exact h.1.1.1.1
+                have hcs : codeSub cfg (.sub [.msg ps] (first :: rest)) = (first :: rest).flatMap evCode := by
+                  cases first <;> simp_all [codeSub, hasExtractable, Dir.isExtractable, TEvent.isStart]
+                rw [hcs]
+                exact HasCode.left (hasCode_flatMap cfg st (first :: rest))
         · have ih := code_list cfg body h.2
           have hex : Total (fun cs' xs' => exList cfg (cfg.extractText && st) cs' xs' 0 body) := fun cs' xs' => by
             obtain ⟨m, hm, _⟩ := ih 0 (cfg.extractText && st) cs' xs'; exact ⟨m, hm⟩
